@@ -158,7 +158,7 @@ def gen_structs(rng, big=None, explicit=False):
 
 def gen_cases(tier, seed):
     rng = random.Random(f"c11-{seed}")
-    n, ngcc, nbig, nclos = (1500, 60, 60, 120) if tier == "quick" else (40000, 2500, 600, 3000)
+    n, ngcc, nbig, nclos = (1500, 60, 60, 120) if tier == "quick" else (120000, 4000, 2000, 6000)
     cases = []
     for i in range(n):
         cases.append({"kind": "structs", "seed": rng.getrandbits(40), "auto_pad": i % 2 == 0, "core": i % 5 == 0, "explicit": i % 4 == 1})
